@@ -519,11 +519,10 @@ def _run_one(case, scratch, run_index, done_before) -> Engine:
                 m.objs.append(job)
                 # C04 (static): the recorded job dependencies are exactly the upstream jobs
                 got = {id(d.origin) for d in job.dependencies if isinstance(d, JobDependency)}
-                want = {id(eng.jobs[u].objs[0]) for u in m.ups}
-                if not want <= got:
+                gotidx = sorted(eng.job_by_obj[g].idx if g in eng.job_by_obj else -1 for g in got)
+                missing = sorted(set(m.ups) - set(gotidx))
+                if missing:
                     # (a superset is fine: dependencies of an upstream's pre-tasks are added too)
-                    gotidx = sorted(eng.job_by_obj[g].idx if g in eng.job_by_obj else -1 for g in got)
-                    missing = sorted(set(m.ups) - set(gotidx))
                     kinds = sorted({k for (off, k) in spec["ups"] if j and (j - 1 - (off % j)) in missing})
                     eng.viol("C04", "dependencies-missed:" + ",".join(kinds), f"job {j} depends on jobs {m.ups} (embeddings {spec['ups']}) but job.dependencies names {gotidx}")
             elif prev_failed:
